@@ -327,6 +327,9 @@ fn abi_names(src: &str) -> Vec<String> {
     v
 }
 
+static TIE_BUDGET: std::sync::atomic::AtomicUsize = std::sync::atomic::AtomicUsize::new(70);
+fn tie_budget() -> usize { TIE_BUDGET.load(std::sync::atomic::Ordering::Relaxed) }
+
 fn backend_files(src: &str, target: &str) -> Result<BTreeMap<String, String>, String> {
     let o = tool::run_backend(src, target);
     if o.ok() {
@@ -354,6 +357,13 @@ fn metamorphic(m: &Module, rng: &mut Rng, rep: &mut Report) {
         let v = validator(t);
         let holds = attr.cfg.eval(&v);
         rep.oracle_runs += 1;
+        // the real command line sees the attribute the way the in-process pipeline does
+        if rep.distribution.get("cli-tie").copied().unwrap_or(0) < tie_budget() {
+            rep.count("cli-tie");
+            if let Some(d) = tool::cli_tie_default(&util::workdir("C13tie"), &with, t) {
+                rep.disagree(&format!("{} backend={t}", m.sexp()), "cli-vs-in-process", &d.to_string(), "same verdict and byte-identical files");
+            }
+        }
         let a = backend_files(&with, t);
         let b = backend_files(&without, t);
         match holds {
